@@ -58,7 +58,7 @@ CHECKS = {
         "level": "exploration",
         "level_text": "Held on the sampled histories only: every public observation (get/get_mut/contains/len/is_empty/iter/entry/remove results, *_with_hint forms) is compared with a BTreeMap after every operation, every key and value carries a unique id counted at drop, and for a quarter of the proxy-allocator histories each single allocation of the history is failed in turn. Sampling with engineered collisions is the right level for a 550-line unsafe table: the defects it had (ghost buckets, stale entry slot, reserved hash, failed-grow states) all show within a few operations once colliding keys and growth steps are forced.",
         "level_note": "Trusted: std BTreeMap as model, the harness replica of the FNV hash (cross-checked against CaoHashMap::insert at start-up), the drop registry. Not judged: Clone under allocation failure. A hang without logical evidence is inconclusive.",
-        "technique": HIST_TECH + ", allocation failure injected at each allocation index",
+        "technique": HIST_TECH + ", allocation failure injected at each allocation index; the same histories under AddressSanitizer and under Miri (Tree Borrows)",
         "rule": HIST_RULE,
         "engines": [
             {"engine": "hashmap", "profile": "dev", "cases": {"quick": 4000, "thorough": 40000}, "primary": True},
@@ -81,7 +81,7 @@ CHECKS = {
         "level": "exploration",
         "level_text": "Held on the sampled histories only: all public observations of HandleTable compared with a BTreeMap after every operation over handle sets engineered to share home slots and wrap around, initial capacities 0..40, both allocators; termination is decided logically (a table left with len == capacity is reported before the endless probe is run) and by an isolated re-run for anything the logical guard does not foresee.",
         "level_note": "Trusted: std BTreeMap as model, bytemuck cast to build raw handles, the drop registry. entry() and clone() are not judged under allocation failure (no Result).",
-        "technique": HIST_TECH + ", logical termination guard",
+        "technique": HIST_TECH + ", logical termination guard; the same histories under AddressSanitizer and under Miri (Tree Borrows)",
         "rule": HIST_RULE,
         "hang_is_violation": True,
         "engines": [
@@ -104,7 +104,7 @@ CHECKS = {
         "level": "exploration",
         "level_text": "Held on the sampled histories only: every result and the full content of ValueStack and BoundedStack compared with a Vec after every operation, capacities 1..12 and 255..257, walks hovering at empty and at full; BoundedStack elements counted at drop.",
         "level_note": "Trusted: Vec as model. Push with exactly one free slot (value stack) may succeed or fail; clear_until's return value and truncation above the current height are not judged.",
-        "technique": HIST_TECH,
+        "technique": HIST_TECH + "; set-at-height compared with push on an equal probe stack; the same histories under AddressSanitizer and under Miri (Tree Borrows)",
         "rule": HIST_RULE,
         "engines": [
             {"engine": "stacks", "profile": "dev", "cases": {"quick": 6000, "thorough": 80000}, "primary": True},
@@ -152,7 +152,7 @@ CHECKS = {
         "level": "exploration",
         "level_text": "Held on the sampled programs only: as C01 with closures on. Half of the cases are random programs with closure creation/calls (nesting to depth 2, captures of locals, parameters, loop variables, captured assignment), half are parametrised scenarios that force the situations the statement names: closure created at non-zero frame offset behind 0-3 wrapper frames, counters, sibling closures sharing a variable while the scope is alive, per-iteration capture in repeat/for-each, capture of a capture, the same card position in two modules, shadowed names, closures passed to a host function that re-enters the VM. The reference interpreter implements by-reference capture with shared cells and a fresh scope per loop iteration.",
         "level_note": "Trusted: the reference interpreter's cell semantics (DESIGN.md appendix A6/A7). Strict programs only (no statement-level left-over values above captured locals).",
-        "technique": "runtime monitoring: differential execution of generated closure programs against an independent reference interpreter with by-reference capture cells",
+        "technique": "runtime monitoring: differential execution of generated closure programs against an independent reference interpreter with by-reference capture cells; the same programs under AddressSanitizer",
         "rule": "seeded random closure programs + 9 parametrised scenario templates; distinct by JSON hash; non-trivial as in C01",
         "engines": [
             {"engine": "prog-closures", "profile": "dev", "cases": {"quick": 4000, "thorough": 100000}, "primary": True},
@@ -168,7 +168,7 @@ CHECKS = {
         "level": "exploration",
         "level_text": "Held on the sampled inputs only: (A) arbitrary, not well-scoped modules (random card trees of all 43 kinds, odd/empty/reserved names, wrong arities, junk imports, sub-module trees up to and over the recursion limit, 255+ locals, up to 80 globals, 250 upvalues, 400 functions, 3000-card bodies, expression/statement nesting to depth 120) optionally round-tripped through the real JSON and YAML loaders, then compiled; (B) well-scoped hostile programs (self-referencing tables compared/hashed/printed, unbounded recursion incl. through host re-entry, reserved-hash keys, allocation loops, wrong-type operands of every card, failing and missing natives, library calls on odd inputs, random ill-typed programs) run with value/call stack sizes 1..256, memory limits 64 B..16 MiB, budgets 0..100000, collections on or off, then cleared and run again. Oracles: catch_unwind (panic location), worker exit status/signal (abort, native stack overflow), stall watchdog with isolated re-run.",
         "level_note": "Trusted: process-level monitors. A hang is only a violation when the single case re-run alone still does not finish within 60 s (comparable cases take milliseconds). dev profile (debug assertions and overflow checks on) in quick, dev + release in thorough.",
-        "technique": "runtime monitoring: crash/panic/abort/stack-overflow/hang monitors around isolated workers driven by hostile generated inputs",
+        "technique": "runtime monitoring: crash/panic/abort/stack-overflow/hang monitors around isolated workers driven by hostile generated inputs; per-dispatch instruction counter against the budget; the same inputs under AddressSanitizer",
         "rule": "seeded hostile inputs; distinct by JSON hash; every completed case is non-trivial (it exercised compile and, for run cases, the VM under the stated limits)",
         "hang_is_violation": True,
         "engines": [
@@ -244,7 +244,7 @@ CHECKS = {
         "level": "exploration",
         "level_text": "Held on the sampled histories only: the allocator hook logs every allocation (index, size, alignment, address, granted or not, counter and limit after the call), every release and the begin/end of every collection; an offline checker replays the log into an address->charge ledger and requires, after every event, counter == sum of outstanding charges (allowing for the one request that is charged but not yet logged while a collection runs inside alloc), counter <= limit, no release of an unknown address, refund == charge, and an empty ledger and a zero counter after every clear. Workloads: churn programs with bounded live data and 10x-200x the limit in garbage (strings, tables, closures, rows, library results) that must complete; growth programs that must end in OutOfMemory; failing programs; random programs; limits 4 KiB..1 MiB; histories of 2..320 runs with clear. After a run that ended in OutOfMemory a full collection is forced and the run is a violation when a churn program's reachable bytes + failed request + 25% slack fit in the limit.",
         "level_note": "Accounted = what goes through the allocator proxy (the quantifier of the property); the keys Vec of a table and the upvalues Vec of a closure live in the global allocator and are not accounted - observation only. Trusted: the ledger checker and the event log hook.",
-        "technique": "runtime monitoring: offline allocation-ledger checker over hook event logs, forced collection after OutOfMemory, churn/growth workloads with known answers",
+        "technique": "runtime monitoring: offline allocation-ledger checker over hook event logs, forced collection after OutOfMemory, churn/growth workloads with known answers (live data calibrated to 60 % of the limit); AddressSanitizer/LeakSanitizer build",
         "rule": "seeded run/clear histories over program pools; evaluations = histories; non-trivial when the whole history was checked",
         "engines": [
             {"engine": "lifecycle", "profile": "dev", "cases": {"quick": 400, "thorough": 12000}, "primary": True, "args": {"property": "c05"}},
@@ -259,7 +259,7 @@ CHECKS = {
         "level": "exploration",
         "level_text": "Held on the sampled histories only: pools of 1-4 programs (allocation-heavy, closure, random, and ones ending in Timeout, OutOfMemory, value-stack overflow, call-stack overflow, a host error, an error inside a nested host re-entry) are run in histories of 2..320 steps on one VM with stock collection thresholds and limits 4 KiB..1 MiB. Cleared mode: the VM is cleared before every run and the run is compared with the same program on a newly created VM: result kind, host-call log, globals by name, number of instructions dispatched and accounted memory after the run must agree. Repeat mode: one program is run n times (n up to 300, crossing 256) without clear and every run must equal the first.",
         "level_note": "Trusted: the fresh-VM twin. Repeat mode is only judged for programs whose first run succeeds (stack-balanced).",
-        "technique": "runtime monitoring: run histories on one VM against a fresh-VM twin executed in lock-step",
+        "technique": "runtime monitoring: run histories on one VM against a fresh-VM twin executed in lock-step on a newly created thread; re-runs inside a history compared with the first; AddressSanitizer/LeakSanitizer build",
         "rule": "seeded run/clear histories over program pools; evaluations = histories; non-trivial when the whole history was compared",
         "engines": [
             {"engine": "lifecycle", "profile": "dev", "cases": {"quick": 400, "thorough": 12000}, "primary": True, "args": {"property": "c17"}},
@@ -274,7 +274,7 @@ CHECKS = {
         "level": "exploration",
         "level_text": "Held on the sampled planted faults only: a fault card of known identity (missing/failing native, property access on int/nil, pop on int, Get with negative / non-integer index / non-table, call of int/string, unset global, SetProperty/AppendTable/ForEach/shorthand write on a non-table; Timeout and OutOfMemory subtrees; unknown function in Call/Function, empty name in SetVar/ReadVar/SetGlobalVar) is embedded in one of 23 contexts (every operand/condition/argument/body slot of add, if, ifelse, while, repeat, callnative, dynamic call, not, len, equals, setvar, setglobal, composite) at the end of a chain of 0-4 static or dynamic calls that themselves sit in different slots, with frames in the root and a sub-module. trace[0] must resolve (namespace -> lookup_submodule -> get_card) to the planted card (any card of the subtree for resource faults) and carry the right namespace; the call cards of the chain must appear in trace[1..] in order, innermost first, each with the namespace of its function; for compile faults the error's loc must resolve to the offending card.",
         "level_note": "Frames pushed by host re-entry and the program entry have no call card: trace entries that are not chain call cards are skipped (sub-sequence match). Trusted: card identity by Card.id, which the harness records when it builds the program.",
-        "technique": "runtime monitoring: planted faults with known location, error traces resolved through the module API",
+        "technique": "runtime monitoring: planted faults with known location, error traces resolved through the module API; direct recursion below the fault and into the call-stack limit",
         "rule": "seeded planted-fault programs; distinct by seed; every judged case is non-trivial",
         "engines": [
             {"engine": "trace", "profile": "dev", "cases": {"quick": 3000, "thorough": 80000}, "primary": True},
@@ -303,7 +303,7 @@ CHECKS = {
         "level": "exploration",
         "level_text": "Held on the sampled histories only: histories of set/get/remove/append/pop/len/nth-key/row/for-each over 1-3 tables with few keys (integers 0..6 and around len, strings incl. one whose hash is the reserved 0, finite non-zero reals, nil, i64 extremes) so that overwrite, collision, growth (8->12->18->27 slots), append skipping used integer keys and get/append after pop occur constantly. Host mode: every operation goes through the public CaoLangTable API with a fresh string object per lookup; after every operation all tables are compared with an ordered-map model (key order, hash-part size, iteration). Script mode: the history becomes a program that reaches every table through a second variable, a table field and a captured variable, logs every result, and is judged against the reference interpreter.",
         "level_note": "Out-of-range row access, mutation during iteration and table/function/NaN/-0.0 keys are unspecified and not judged. Trusted: the ordered-map model (host mode), the reference interpreter (script mode).",
-        "technique": "runtime monitoring: operation histories against an executable ordered-map model (host API) and against the reference interpreter (scripts), full-state comparison after every operation",
+        "technique": "runtime monitoring: operation histories against an executable ordered-map model (host API) and against the reference interpreter (scripts), full-state comparison after every operation; host histories on small heaps with failing inserts; AddressSanitizer build",
         "rule": "seeded table histories, half judged through the host API and half as scripts; distinct by JSON hash; non-trivial with >= 10 operations",
         "engines": [
             {"engine": "table", "profile": "dev", "cases": {"quick": 3000, "thorough": 80000}, "primary": True},
@@ -319,7 +319,7 @@ CHECKS = {
         "level": "exploration",
         "level_text": "Held on the sampled calls only: each case builds a table (size 0,1,2 or 3-20; integer / string / mixed keys; values from tiny pools so that ties dominate; mixed int/real, strings of distinct lengths, numbers with nil) and calls one of the ten library functions on it with a callback / key function (predicate on value, on key, on index; identity; allocating; capturing and counting; constant key for first-of-ties and stability) given as closure or named function, from main, from a nested frame with its own locals, through a function import, or feeding another library call; sometimes the input is not a table. Input before and after, result and the captured counter are logged and compared with the executable specification (reference interpreter std_inner, written from the statement).",
         "level_note": "Cases with incomparable ordering keys (NaN, equal-length different strings, mixed string/table) are unspecified and skipped. Trusted: the specification in refsem.rs.",
-        "technique": "runtime monitoring: executable specification of the library functions over generated inputs and callbacks",
+        "technique": "runtime monitoring: executable specification of the library functions over generated inputs and callbacks; the same programs under forced collections with heap audit and self-differential outcome",
         "rule": "seeded library-call programs; distinct by JSON hash; non-trivial when judged (not skipped)",
         "engines": [
             {"engine": "stdlib", "profile": "dev", "cases": {"quick": 4000, "thorough": 100000}, "primary": True},
@@ -336,7 +336,7 @@ CHECKS = {
         "level": "exploration",
         "level_text": "Held on the sampled artefacts only: (A) source modules from all generators (all 43 card kinds with optional fields present/absent, closures, module trees with imports, 0..300 globals and 0..120 extra functions) are written to JSON and YAML, read back, compiled, and the result is compared field by field (bytecode, data, sorted labels, sorted variable ids/names, sorted trace, version) with compiling the original; (B) every compiled program is written to JSON, CBOR and bincode, read back, compared field by field and run, and the run outcome is compared with running the original; (C) a generated value (nested tables to depth 4 with 0..200 entries, i64 extremes, reals, unicode strings) is converted to its owned form, written to JSON/CBOR/bincode, read back, inserted into another VM and deep-compared in order.",
         "level_note": "Modules containing non-finite floats are skipped for JSON/YAML (format limitation); serde_json is built with float_roundtrip. Trusted: the field-wise fingerprint and the deep value snapshot.",
-        "technique": "runtime monitoring: round-trip equality and differential run across formats and sizes",
+        "technique": "runtime monitoring: round-trip equality and differential run across formats and sizes; insert_value under forced collections with heap audit",
         "rule": "seeded artefacts; distinct by JSON hash; every case performs module, program and value round trips",
         "engines": [
             {"engine": "serde", "profile": "dev", "cases": {"quick": 250, "thorough": 8000}, "primary": True},
@@ -350,7 +350,7 @@ CHECKS = {
         "level": "exploration",
         "level_text": "Held on the sampled calls only: 18 host functions covering parameter types Value, i64, f64, bool, &str, &CaoLangTable, *mut CaoLangTable, Nilable<i64>, Nilable<&str> at arities 0-4 record what they receive; programs call 1-5 of them with arguments of every kind (nil, int, real, string, table, function) through a CallNative card, a native function value + dynamic call, or another host function that pushes the arguments and re-enters the VM, at call depth 0-3 with live locals. Kind-preserving conversions must be exact; for cross-kind numeric conversions either the operators' coercion or a well-formed rejection is accepted; a rejection must be TaskFailure{function name, InvalidArgument} whose message names a rejectable parameter; the returned value must become the call card's value; caller locals must survive; names starting with __ must be refused. Re-entry: a probe host function records value-stack height, call depth and the caller's part of the stack before pushing (a, b) and after run_function(f) for f = script function, function returning early from a loop, function that re-enters again, closure with a captured counter, native function value; the deltas must be 0, the result and the captured state as computed by construction.",
         "level_note": "Trusted: expectations computed by construction in e_host.rs (no reference interpreter involved).",
-        "technique": "runtime monitoring: recording host functions + stack-height probes around run_function, expectations known by construction",
+        "technique": "runtime monitoring: recording host functions + stack-height probes around run_function, expectations known by construction; host calls with temporary arguments under forced collections (heap audit, self-differential) and AddressSanitizer",
         "rule": "seeded host-call programs; distinct by seed; every judged case is non-trivial",
         "engines": [
             {"engine": "host", "profile": "dev", "cases": {"quick": 4000, "thorough": 100000}, "primary": True},
